@@ -36,8 +36,11 @@ FACTORS = {
     # contrast-coded factors: full coding = level indicators, reduced coding = the named contrast columns
     "C(A, contr.sum)": ("C(A, contr.sum)", "python", "cat"),
     "C(B, contr.helmert)": ("C(B, contr.helmert)", "python", "cat"),
+    # levels nominated in an order of the caller's own (differs from the sorted order and from the declared order of frame 'absent-level')
+    "C(A, levels=['z', 'x', 'y'])": ("C(A, levels=['z', 'x', 'y'])", "python", "cat"),
 }
-CAT = {"A": "A", "B": "B", "C(A, contr.sum)": "A", "C(B, contr.helmert)": "B"}
+CAT = {"A": "A", "B": "B", "C(A, contr.sum)": "A", "C(B, contr.helmert)": "B", "C(A, levels=['z', 'x', 'y'])": "A"}
+LEVELS = {"C(A, levels=['z', 'x', 'y'])": ["z", "x", "y"]}
 CONTRAST_FACTORS = ["C(A, contr.sum)", "C(B, contr.helmert)"]
 _REDUCED = {}
 
@@ -91,6 +94,7 @@ def universe(tier):
     u += [("a", "A", "B"), ("A", "a", "B"), ("A", "B", "a"), ("B", "A", "a"), ("A", "B", "{a+b}"), ("a", "b", "A"), ("A", "a", "b"), ("b", "A", "a")]
     u += [("C(A, contr.sum)",), ("a", "C(A, contr.sum)"), ("B", "C(A, contr.sum)"), ("C(A, contr.sum)", "b"), ("C(B, contr.helmert)", "A"),
           ("C(A, contr.sum)", "C(B, contr.helmert)"), ("2.5", "C(A, contr.sum)", "a")]
+    u += [("C(A, levels=['z', 'x', 'y'])",), ("C(A, levels=['z', 'x', 'y'])", "a"), ("B", "C(A, levels=['z', 'x', 'y'])")]
     u += [("2.5", "a"), ("2.5", "A"), ("a", "2.5"), ("2.5", "a", "A"), ("3", "A", "B"), ("1", "b"), ("A", "2.5", "a"), ("2.5", "3", "a")]
     return u
 
@@ -176,7 +180,7 @@ def drv(c, ctx, col):
         if not fexprs:
             want_labels = ["Intercept"]
         else:
-            want_labels = D.full_kronecker_labels(fexprs, frame, CAT)
+            want_labels = D.full_kronecker_labels(fexprs, frame, CAT, LEVELS)
         if not efr and cols != want_labels:
             col.violation(key, {"term": str(t), "columns": cols, "predicted": want_labels}, sig="kronecker-layout")
             return
@@ -194,7 +198,7 @@ def drv(c, ctx, col):
                     col.violation(key, {"term": str(t), "label": label, "factors": fexprs}, sig="label-not-from-term")
                     return
                 for p in parts:
-                    if p[1] is not None and p[1] not in [str(x) for x in D.levels_of(frame[CAT[p[0]]])]:
+                    if p[1] is not None and p[1] not in [str(x) for x in (LEVELS.get(p[0]) or D.levels_of(frame[CAT[p[0]]]))]:
                         col.violation(key, {"term": str(t), "label": label}, sig="label-unknown-level")
                         return
             got = vals[:, pos]
@@ -206,6 +210,24 @@ def drv(c, ctx, col):
             pos += 1
     if pos != len(names):
         col.violation(key, {"columns_in_structure": pos, "names": names}, sig="structure-does-not-cover-columns")
+        return
+    # the matrix regenerated from the attached spec is a model matrix of the same formula: its columns obey the same labels
+    # (one output type per sub-check is enough: the regeneration path is shared, and C04 / C05 compare outputs and replays)
+    if out != ctx["outputs"][0]:
+        return
+    try:
+        mm2 = spec.get_model_matrix(frame)
+        vals2, labels2 = dense(mm2, out)
+    except Exception as e:  # noqa
+        col.violation(key, {"error": "%s: %s" % (type(e).__name__, e)}, sig="spec-reuse-raised:" + type(e).__name__)
+        return
+    if list(mm2.model_spec.column_names) != names or (labels2 is not None and labels2 != names):
+        col.violation(key, {"names": names, "names_from_spec_reuse": list(mm2.model_spec.column_names), "labels": labels2}, sig="spec-reuse:labels")
+        return
+    if vals2.shape != vals.shape or not np.allclose(vals2, vals, rtol=1e-12, atol=1e-12):
+        bad = [names[j] for j in range(min(vals.shape[1], vals2.shape[1])) if vals2.shape[0] != vals.shape[0] or not np.allclose(vals2[:, j], vals[:, j], rtol=1e-12, atol=1e-12)]
+        col.violation(key, {"columns_not_obeying_their_label": bad, "values_from_spec_reuse": vals2.tolist(), "values_checked_against_labels": vals.tolist()},
+                      sig="spec-reuse:column-value")
 
 
 def subchecks(tier, seed):
@@ -217,6 +239,8 @@ def subchecks(tier, seed):
                                         "frames": fr, "frame_names": ["cross6", "shuffled-index"]},
                 shard_depth=2, bounds={"max_terms": 2, "universe": len(U), "frames": ["cross6", "shuffled-index"], "outputs": ["pandas", "sparse"],
                                        "construction": ["term list"]}),
+            Sub("columns-2terms-numpy", drv, {"universe": U, "K": 2, "modes": ["string"], "outputs": ["numpy"], "frames": fr, "frame_names": ["cross6"]},
+                shard_depth=2, bounds={"max_terms": 2, "universe": len(U), "frames": ["cross6"], "outputs": ["numpy"], "construction": ["formula string"]}),
             Sub("columns-1term-allframes", drv, {"universe": U, "K": 1, "modes": ["string", "terms"], "outputs": ["pandas", "numpy", "sparse"],
                                                  "frames": fr, "frame_names": list(fr), "materializers": ["pandas", "narwhals"]},
                 shard_depth=2, bounds={"max_terms": 1, "universe": len(U), "frames": list(fr)}),
